@@ -152,6 +152,8 @@ pub fn expected_payload(method: &str, params: Option<&J>) -> Payload {
 			s.push_str(&big_string(len, kind));
 			Payload::Result(Value::String(s))
 		}
+		// the handler succeeds but its value cannot be serialised: an internal error that still carries the call's id
+		"unser" => err_code(-32603),
 		"gated" => Payload::Skip,
 		_ if method == "blocking_panic" => err_code(-32603),
 		_ => Payload::Skip,
